@@ -357,12 +357,12 @@ NoStatementSplit == (Done /\ WellFormed) =>
   \A x \in 1..Len(parts) : parts[x].t = "code" =>
      /\ lines[parts[x].a].first /\ lines[parts[x].a].k = "p1"
      /\ \A y \in 1..Len(parts) : (y # x /\ parts[y].t = "code") =>
-           {lines[j].sid : j \in parts[x].a..parts[x].b} \cap {lines[j].sid : j \in parts[y].a..parts[y].b} = {}
+           ({lines[j].sid : j \in parts[x].a..parts[x].b} \cap {lines[j].sid : j \in parts[y].a..parts[y].b}) \ {0} = {}   \* 0: bare "..." lines
 \* C04/C01: a part carries at most the directives of its first statement, and a trailing directive isolates its statement
 DirectiveIsolated == (Done /\ WellFormed) =>
   \A x \in 1..Len(parts) : parts[x].t = "code" =>
      LET sidsWithDir == {lines[j].sid : j \in {j2 \in parts[x].a..parts[x].b : lines[j2].ndir > 0}}
-         sids == {lines[j].sid : j \in parts[x].a..parts[x].b}
+         sids == {lines[j].sid : j \in parts[x].a..parts[x].b} \ {0}
      IN /\ Cardinality(sidsWithDir) <= 1
         /\ (parts[x].inl => Cardinality(sids) = 1)
         /\ (sidsWithDir # {} => lines[parts[x].a].sid \in sidsWithDir)
